@@ -1338,6 +1338,25 @@ def m_iter_adapt(ex, st, fr, path, args, m):
     return NotImplemented
 
 
+@model(r"^<(.*) as (?:std::iter::)?Iterator>::unzip::<")
+def m_iter_unzip(ex, st, fr, path, args, m):
+    it = as_iter(args[0])
+    if it is None:
+        return NotImplemented
+    it = iter_clone(it)
+    a, b = [], []
+    while True:
+        o = iter_next(ex, st, it)
+        if o.variant == "None":
+            break
+        t = o.fields[0]
+        if isinstance(t, Ref):
+            t = deref_val(t)
+        a.append(t.fields[0])
+        b.append(t.fields[1])
+    return Agg("tuple", [VecObj(a), VecObj(b)])
+
+
 def as_iter(x):
     """IterV for an iterator-like value (IterV, Range, &IterV)"""
     if isinstance(x, Ref):
